@@ -716,6 +716,16 @@ collect_secrets(const int idx, const imbh_item *it, const struct imbh_keys *k, c
                         chacha20_block(it->key.p, 0, it->iv.p, blk);
                         add_secret(idx, "poly1305-key", blk, 32);
                 }
+                if ((c == IMB_CIPHER_CHACHA20_POLY1305 || c == IMB_CIPHER_CHACHA20) && it->key.n == 32) {
+                        /* the SIMD kernels keep the state transposed: each key word broadcast to every lane */
+                        for (int w = 0; w < 8; w++) {
+                                uint8_t b[16];
+
+                                for (int j = 0; j < 4; j++)
+                                        memcpy(b + 4 * j, it->key.p + 4 * w, 4);
+                                add_secret(idx, "chacha20-key-word-broadcast", b, sizeof(b));
+                        }
+                }
         }
         if (k->akey_set) {
                 const size_t hs = hmac_state_size(h);
@@ -1402,6 +1412,39 @@ run_ctx_direct(imbh_run *r, const int idx)
         scan_region(ctx_buf, ctx_len, ctx_cb, NULL);
 }
 
+/* entry point 8: QUIC header protection (direct multi-packet API).  Item i of the schedule lends its key; the number of
+ * packets walks through the residues of the kernels' 4/8/16-wide loops.  Masks are public output, samples public input;
+ * the call goes through the hooked handler, so registers, the library's stack and the manager are scanned right after it. */
+static void
+run_quic_hp(imbh_run *r, const int idx)
+{
+        static const int counts[] = { 1, 2, 3, 4, 5, 6, 7, 8, 9, 10, 13, 18, 17, 21, 32, 14 };
+        const int np = counts[idx % (int) (sizeof(counts) / sizeof(counts[0]))];
+        const imbh_item *it = r->it;
+        const struct imbh_keys *k = r->keys;
+        static uint8_t samples[32][16], masks[32][16];
+        const void *src[32];
+        void *dst[32];
+
+        r->done = 1;
+        r->status = IMB_STATUS_COMPLETED;
+        for (int p = 0; p < np; p++) {
+                for (int j = 0; j < 16; j++)
+                        samples[p][j] = it->msg.n ? it->msg.p[(p * 16 + j) % it->msg.n] : (uint8_t) (p * 16 + j);
+                memset(masks[p], 0, sizeof(masks[p]));
+                src[p] = samples[p];
+                dst[p] = masks[p];
+        }
+        add_public(samples, sizeof(samples));
+        if (it->cipher == IMB_CIPHER_CHACHA20 && it->key.n == 32)
+                imb_quic_hp_chacha20(tmgr, k->enc_ptr, dst, src, (uint64_t) np);
+        else if (it->cipher == IMB_CIPHER_ECB && (it->key.n == 16 || it->key.n == 32))
+                imb_quic_hp_aes_ecb(tmgr, k->enc, dst, src, (uint64_t) np,
+                                    it->key.n == 16 ? IMB_KEY_128_BYTES : IMB_KEY_256_BYTES);
+        else
+                r->skip = "unsupported";
+}
+
 static void
 run_schedule(imbh_item *items, imbh_bytes *pts, const int n)
 {
@@ -1448,6 +1491,10 @@ run_schedule(imbh_item *items, imbh_bytes *pts, const int n)
                 for (int i = 0; i < n; i++)
                         if (runs[i]->prep_err == 0)
                                 run_ctx_direct(runs[i], i);
+        } else if (cur_ep == 8) {
+                for (int i = 0; i < n; i++)
+                        if (runs[i]->prep_err == 0)
+                                run_quic_hp(runs[i], i);
         } else {
                 imbh_run_batch(tmgr, cur_ep, runs, n);
         }
